@@ -75,6 +75,7 @@ class Route:
         pattern_out = self.pattern_out
 
         ret = []
+        to_check = []
         pidx = 0
         args_idx = 0
         cidx = 0
@@ -104,16 +105,18 @@ class Route:
             if f_out:
                 prt = f_out(prt)
             if f_in:
-                # a filter may look ahead (e.g. `path`), so it is checked
-                # against the value followed by the literal text after the wildcard
-                tail_end = pattern_out.find('\r', cidx)
-                tail = pattern_out[cidx:] if tail_end < 0 else pattern_out[cidx:tail_end]
-                assert f_in(prt + tail)[1]  # `pos` must be > 0 if match
+                to_check.append((len(ret), f_in))
             ret.append(prt)
 
         if clen:
             end = cidx + clen
             ret.append(pattern_out[cidx:end])
+
+        for idx, f_in in to_check:
+            # a filter may look ahead (e.g. `path`, or `re` with a look-ahead), so it is
+            # checked against the value followed by the rest of the url being built
+            # (literal text and the values of the wildcards after it)
+            assert f_in(''.join(ret[idx:]))[1]  # `pos` must be > 0 if match
 
         return ''.join(ret)
 
